@@ -7,6 +7,7 @@ stash witnesses; the check's driver decides afterwards.  A registry maps
 
 from __future__ import annotations
 
+import math
 from collections import Counter
 from typing import Any
 
@@ -54,8 +55,29 @@ def _cmp_named(where: str, got: dict, exp: dict, *, names_exact: bool, order: li
     for k, v in got.items():
         if k not in exp:
             _w(where, "unexpected name", name=k, ctx=ctx)
+        elif not _finite(exp[k]):
+            COUNT["skipped:non-finite reference value (outside the functions' domain)"] += 1
         elif not close(v, exp[k], TOL):
             _w(where, "value differs", name=k, got=float(v), expected=float(exp[k]), ctx=ctx)
+
+
+def _finite(x: Any) -> bool:
+    try:
+        return math.isfinite(float(x))
+    except (TypeError, ValueError, OverflowError):
+        return False
+
+
+def _domain_ok(values: Any) -> bool:
+    """States far outside the sampled domain (an integrator chasing a blow-up) are not compared:
+    cancellation in different summation orders would be judged at 1e-9."""
+    try:
+        ok = all(math.isfinite(float(v)) and abs(float(v)) < 1e6 for v in values)
+    except (TypeError, ValueError, OverflowError):
+        ok = False
+    if not ok:
+        COUNT["skipped:state outside sampled domain"] += 1
+    return ok
 
 
 def _state_of(ref: Any, variables: Any) -> dict | None:
@@ -73,6 +95,8 @@ def post_call(self: Any, time: Any, variables: Any, result: Any) -> bool:
         return True
     COUNT["Model.__call__"] += 1
     vals = [float(v) for v in variables]
+    if not _domain_ok(vals):
+        return True
     if len(vals) != len(ref.variables):
         _w("__call__", "state length", n=len(vals))
         return True
@@ -83,7 +107,9 @@ def post_call(self: Any, time: Any, variables: Any, result: Any) -> bool:
         _w("__call__", "result length differs", got=len(res), expected=len(ref.variables))
         return True
     for v, g in zip(ref.variables, res):
-        if not close(g, exp[v], TOL):
+        if not _finite(exp[v]):
+            COUNT["skipped:non-finite reference value (outside the functions' domain)"] += 1
+        elif not close(g, exp[v], TOL):
             _w("__call__", "value differs (declaration-order vector)", name=v, got=float(g), expected=exp[v], ctx={"t": float(time), "state": state})
     return True
 
@@ -158,6 +184,8 @@ def post_args_tc(
         return True
     for t, row in variables.iterrows():
         state = {k: float(v) for k, v in row.to_dict().items()}
+        if not _domain_ok(state.values()):
+            continue
         vals = ref.at(state, float(t), readouts=bool(include_readouts))
         exp = _expected_args(ref, vals, time=False, readouts=bool(include_readouts))
         got = result.loc[t].to_dict()
@@ -175,6 +203,8 @@ def post_fluxes_tc(self: Any, variables: Any, result: Any) -> bool:
         return True
     for t, row in variables.iterrows():
         state = {k: float(v) for k, v in row.to_dict().items()}
+        if not _domain_ok(state.values()):
+            continue
         vals = ref.at(state, float(t), readouts=False)
         exp = {k: vals[k] for k in ref.flux_names()}
         _cmp_named("get_fluxes_time_course", result.loc[t].to_dict(), exp, names_exact=True, ctx={"t": float(t), "state": state})
@@ -191,6 +221,8 @@ def post_rhs_tc(self: Any, args: Any, result: Any) -> bool:
         return True
     for (t, row), (_, got) in zip(args.iterrows(), result.iterrows()):
         state = {k: float(row[k]) for k in ref.variables}
+        if not _domain_ok(state.values()):
+            continue
         exp = ref.rhs(state, float(t))
         _cmp_named("get_right_hand_side_time_course", got.to_dict(), exp, names_exact=True, order=list(ref.variables), ctx={"t": float(t), "state": state})
     return True
